@@ -42,7 +42,7 @@ TRUSTED_BASE = [
 ASSUMPTIONS = [
     "integer element values (int64); NaN ordering, complex data and dtype promotion are not modelled",
     "np.sort/np.argsort on the short integer arrays involved are deterministic (ties between equal integers are "
-    "indistinguishable in the values; argsort ties arise only for unpruned inputs, which are outside the domain)",
+    "indistinguishable in the values; np.argsort in unique_counts only sees distinct values)",
     "nonzero/argwhere/where(cond) on an array with a non-zero fill value raise ValueError by design "
     "(check_zero_fill_value); the Spec used by the judge expects exactly this rejection",
     "GCXS/DOK operands are converted by asformat(COO); that conversion is property C05's subject",
@@ -51,12 +51,7 @@ ASSUMPTIONS = [
 IMPORTS = "From Verif Require Import Py Shape COO GCXS SArr NpSort SortSearch C10Judge."
 VALUES = list(range(-3, 6))
 FILLS = [-4, 0, 2, 6]
-CLAUSES = {
-    7: "arg_unpruned_tie_with_fill",
-    8: "unique_values_unpruned",
-    10: "unique_counts_unpruned",
-    11: "nonzero_unpruned",
-}
+CLAUSES = {}      # no domain clause is left (the unpruned-input findings were repaired in round 7)
 
 
 # ------------------------------------------------------------------ implementation side (workers)
@@ -85,6 +80,8 @@ def _run_op(sparse, np, x, op):
     if name == "arg":
         f = sparse.argmax if op[1] else sparse.argmin
         return vlib.plain(f(x, axis=op[2], keepdims=op[3]))
+    if name == "T":
+        return vlib.plain(x.T)
     if name == "unique_values":
         r = sparse.unique_values(x)
         return {"k": "list", "l": [vlib.val_token(v) for v in np.asarray(r).reshape(-1)]}
@@ -107,14 +104,19 @@ def _run_op(sparse, np, x, op):
 
 
 def impl_api(case):
-    """case = (array spec, [op, ...]) -> one plain result per op"""
+    """case = (array spec, [op, ...]) -> one plain result per op.  With spec["cache"] the ops run, in order,
+    on ONE cache-enabled operand (a history); otherwise every op gets a fresh operand."""
     import numpy as np
     import sparse
     spec, ops = case
     out = []
+    shared = None
+    if spec.get("cache"):
+        shared = vlib.build_array(spec)
+        shared.enable_caching()
     for op in ops:
         try:
-            x = vlib.build_array(spec)
+            x = shared if shared is not None else vlib.build_array(spec)
             out.append(_run_op(sparse, np, x, op))
         except Exception as ex:  # noqa: BLE001
             out.append(vlib.plain(ex))
@@ -277,6 +279,24 @@ def gen_api(rng, tier):
         fmt = rng.choice(["gcxs", "dok"])
         arrays.append((gen_spec(rng, sh, rng.choice(FILLS), rng.choice(patterns), False, fmt), fmt))
     cases = []
+    # histories on ONE cache-enabled operand: sort along a non-last axis, then the observers that share the
+    # transposition memo with it (argmax/argmin along the last axis, x.T), then sort again
+    hist_arrays = [sp for sp, fmt in arrays if fmt == "coo" and len(sp["shape"]) in (2, 3) and 0 not in sp["shape"]
+                   and len(sp["coords"]) >= 2]
+    if tier == "quick":
+        hist_arrays = [sp for sp in hist_arrays if len(sp["shape"]) == 2] + \
+                      [sp for sp in hist_arrays if len(sp["shape"]) == 3][::4]
+    for sp in hist_arrays:
+        nd = len(sp["shape"])
+        h = dict(sp)
+        h["cache"] = True
+        ops = []
+        for a0 in range(nd - 1):
+            ops.append(("sort", a0, rng.random() < 0.5))
+            ops += [("arg", True, -1, False), ("arg", False, nd - 1, rng.random() < 0.5), ("T",)]
+        ops += [("sort", nd - 1, False), ("sort", 0 - nd, True), ("arg", rng.random() < 0.5, nd - 1, True),
+                ("arg", True, None, False), ("T",), ("sort", 0, False), ("unique_values",)]
+        cases.append((h, ops))
     for k, (spec, fmt) in enumerate(arrays):
         cases.append((spec, ops_for(spec, fmt, with_oob=(k % 9 == 0))))
     for spec, ops in DIRECTED:
@@ -294,6 +314,8 @@ def op_lit(op):
         return f"(OpArg {vbool(op[1])} {vopt(op[2])} {vbool(op[3])})"
     if op[0] == "sort_argwhere":
         return f"(OpSortArgwhere {vZ(op[1])} {vbool(op[2])})"
+    if op[0] == "T":
+        return "OpT"
     return {"unique_values": "OpUniqueValues", "unique_counts": "OpUniqueCounts", "nonzero": "OpNonzero",
             "argwhere": "OpArgwhere", "where": "OpWhere"}[op[0]]
 
@@ -322,6 +344,8 @@ def op_py(op):
         return f"sparse.{f}(x, axis={op[2]}, keepdims={op[3]})", f"np.{f}(d, axis={op[2]}, keepdims={op[3]})"
     if op[0] == "where":
         return "sparse.where(x)", "np.where(d)"
+    if op[0] == "T":
+        return "x.T", "d.T"
     if op[0] == "sort_argwhere":
         e = f"np.sort(d, axis={op[1]})"
         return (f"sparse.argwhere(sparse.sort(x, axis={op[1]}, descending={op[2]}))",
@@ -329,7 +353,7 @@ def op_py(op):
     return f"sparse.{op[0]}(x)", f"np.{op[0]}(d)"
 
 
-def replay_line(spec, op):
+def replay_line(spec, op, hist=None):
     n, nd = len(spec["coords"]), len(spec["shape"])
     s, d = op_py(op)
     lines = [
@@ -340,8 +364,12 @@ def replay_line(spec, op):
     ]
     if spec.get("format", "coo") != "coo":
         lines.append(f"x = sparse.{ {'gcxs': 'GCXS', 'dok': 'DOK'}[spec['format']] }.from_coo(x)")
+    lines.append("d = x.todense() if isinstance(x, sparse.COO) else x.asformat('coo').todense()")
+    if hist is not None:
+        lines.append("x.enable_caching()   # the history below runs on this ONE cache-enabled operand")
+        for h in hist:
+            lines.append(f"_ = {op_py(h)[0]}")
     lines += [
-        "d = x.todense() if isinstance(x, sparse.COO) else x.asformat('coo').todense()",
         "def show(tag, f):",
         "    try:",
         "        r = f()",
@@ -462,33 +490,35 @@ def campaign(build, tier, seed, report, budget=1):
     for (spec, ops), res in zip(api, rapi, strict=True):
         if not isinstance(res, list):          # hang / crash of the whole batch
             res = [res] * len(ops)
-        for op, r in zip(ops, res, strict=True):
-            flat.append((spec, op, r))
+        for j, (op, r) in enumerate(zip(ops, res, strict=True)):
+            flat.append((spec, op, r, list(ops[:j]) if spec.get("cache") else None))
     lits = []
-    for spec, op, r in flat:
+    for spec, op, r, _h in flat:
         lits.append(vpair(vlib.spec_coo_lit(spec), op_lit(op), res_lit(r)))
         tag(*tags_of(spec, op))
         tag("format:" + spec.get("format", "coo"))
+        if _h is not None:
+            tag("history:cache_enabled")
+        if spec["coords"] and spec["fill"] in spec["data"]:
+            tag("stored_equals_fill")
     bad = build.judge("c10_api", IMPORTS, "api_case", "judge_api", lits, chunk=400)
     codes = {}
     for i, code in bad:
-        spec, op, r = flat[i]
+        spec, op, r, hist = flat[i]
         codes[code] = codes.get(code, 0) + 1
-        opname = ("argmax" if op[1] else "argmin") if op[0] == "arg" else op[0]
+        opname = ("argmax" if op[1] else "argmin") if op[0] == "arg" else "transpose" if op[0] == "T" else op[0]
         if code == 1:
             kind, clause = "representation", None
-        elif code == 2:
-            kind, clause = "value", None
         elif code == 3:
             kind, clause = "value", "result_not_canonical"
         else:
-            k = (code - 100) % 50
-            kind, clause = "value", CLAUSES.get(k, f"clause_{k}")
+            kind, clause = "value", None
         v = {"property": "C10", "op": opname, "kind": kind, "clause": clause, "code": code,
              "format": spec.get("format", "coo"),
-             "case": dict(array=spec, op=list(op)), "impl": r, "replay_py": replay_line(spec, op)}
-        if code >= 150:
-            v["also_differs_from_model"] = True
+             "case": dict(array=spec, op=list(op)), "impl": r, "replay_py": replay_line(spec, op, hist)}
+        if hist is not None:
+            v["history"] = [list(h) for h in hist]
+            v["case"]["history_on_cache_enabled_operand"] = [list(h) for h in hist]
         viol.append(v)
         tag("verdict:" + (clause or kind))
 
@@ -500,15 +530,15 @@ def campaign(build, tier, seed, report, budget=1):
         size = 1
         for d in sh:
             size *= d
-        return (1, 0 in sh, abs(size - 6))
+        return (1, 0 in sh, len(v.get("history") or []), abs(size - 6))
     viol.sort(key=nice)
 
     cov = report["coverage"]
     cov["evaluations"] = len(sk) + len(mk) + len(flat)
     cov["kernel_cases"] = {"_sort_coo": len(sk), "_compute_minmax_args": len(mk)}
     cov["api_cases"] = len(flat)
-    cov["distinct_nontrivial"] = len({vlib.digest((s["shape"], s["coords"], s["data"], s["fill"], s.get("format"), list(op)))
-                                      for s, op, _r in flat if s["coords"]}) + \
+    cov["distinct_nontrivial"] = len({vlib.digest((s["shape"], s["coords"], s["data"], s["fill"], s.get("format"), list(op), h))
+                                      for s, op, _r, h in flat if s["coords"]}) + \
         len({vlib.digest(c) for c in sk if c[0]}) + len({vlib.digest(c) for c in mk if c[0]})
     cov["rule"] = ("kernel: seeded random canonical 2-d inputs (rows empty/partial/prefix/full, value pools of 1-5 values "
                    "so ties occur, fills in {-4,0,2,6} or equal to a stored value, both directions/modes) plus a few "
@@ -519,7 +549,7 @@ def campaign(build, tier, seed, report, budget=1):
     cov["differential_only"] = ["NaN ordering, complex data, dtype promotion are not covered (integer data only)"]
     cov["verdict_codes"] = {str(k): v for k, v in sorted(codes.items())}
     pick = [0, len(flat) // 3, 2 * len(flat) // 3, len(flat) - 1]
-    cov["samples"] = [dict(array=flat[i][0], op=list(flat[i][1]), impl=flat[i][2]) for i in pick] + \
+    cov["samples"] = [dict(array=flat[i][0], op=list(flat[i][1]), impl=flat[i][2], history=flat[i][3]) for i in pick] + \
                      [dict(kernel="_sort_coo", case=sk[0], impl=rsk[0]), dict(kernel="_compute_minmax_args", case=mk[0], impl=rmk[0])]
     cov["branch_tags"] = dict(sorted(tags.items()))
     return viol
